@@ -15,6 +15,8 @@ pub trait Sc: Number + Signed + Copy + PartialOrd + Debug + W + 'static {
     fn from_i(n: i64) -> Self;
     /// magnitude as f64 (for float oracles)
     fn mag64(&self) -> f64;
+    /// (real part, imaginary part) as f64 (imaginary part 0 for the real types)
+    fn parts64(&self) -> (f64, f64) { (self.mag64(), 0.0) }
     fn finite(&self) -> bool;
     /// read-only norm view of a matrix inside a history (`Matrix<f64>` only): (output text, oracle failures)
     fn mat_norms_view(_m: &ohsl::Matrix<Self>, _p: f64) -> Option<(String, Vec<String>)> { None }
@@ -77,7 +79,8 @@ impl Sc for Cmplx {
     fn same(&self, o: &Cmplx) -> bool { bits_eq(self.real, o.real) && bits_eq(self.imag, o.imag) }
     fn is_exact() -> bool { false }
     fn from_i(n: i64) -> Cmplx { Cmplx::new(n as f64, 0.0) }
-    fn mag64(&self) -> f64 { (self.real * self.real + self.imag * self.imag).sqrt() }
+    fn mag64(&self) -> f64 { self.real.hypot(self.imag) }   // hypot: no spurious overflow / underflow of re^2 + im^2
+    fn parts64(&self) -> (f64, f64) { (self.real, self.imag) }
     fn finite(&self) -> bool { self.real.is_finite() && self.imag.is_finite() }
 }
 
